@@ -345,8 +345,10 @@ def run(ck):
         ok_l, why = False, "the job variable is re-assigned (the previous closure is destroyed at the assignment, under the lock)"
     if ok_l:
         ck.ok("JOB-LIFETIME", worker.qname, "the job object is destroyed with mutex_ released and before --busy_")
+    elif not why:
+        raise dtable.Undecidable("%s: job object lifetime not understood (no destructor point / completion counter found)" % worker.loc)
     else:
-        ck.violation("JOB-LIFETIME", worker.qname, "job-dtor", why or "job object lifetime not understood", worker.nloc(jv))
+        ck.violation("JOB-LIFETIME", worker.qname, "job-dtor", why, worker.nloc(jv))
     # ---- WRITE-NOTIFY and NOTIFY-KIND
     pvars = {}
     for cv, lst in preds.items():
